@@ -17,6 +17,7 @@
     (real BeginBlock/EndBlock of every module under recover), not by a Gallina model. *)
 From Coq Require Import List ZArith Bool String.
 From Paloma Require Import Base.Dec Gen.C09 Sys.EndBlock Sys.EndBlockProofs.
+From Paloma Require Import Sys.EndBlockAttest Sys.EndBlockAttestProofs Sys.EndBlockMods Sys.EndBlockModsProofs.
 Import ListNotations.
 Open Scope Z_scope.
 
@@ -64,6 +65,67 @@ Theorem panic_sites_closed : forallb classified Gen.C09.sites = true.
 Proof. exact panic_sites_closed_proof. Qed.
 Print Assumptions panic_sites_closed.
 
+
+(** ** Second round: the attestation and pruning steps of the consensus end-blocker
+    (Sys/EndBlockAttest.v), the skyway end-blocker under its recover and the valset division
+    (Sys/EndBlockMods.v). *)
+
+(* every history of puts, elections, evidence of any shape by anybody, public access / error data,
+   snapshots (any shares) and end-blocks at any heights: no end-block panics, one more completes *)
+Theorem attest_prune_total : forall (ops : list aop) (h : Z),
+  exists s, arun fixed ops ainit = AOk s /\ exists s', aend_block fixed h s = AOk s'.
+Proof. exact attest_prune_total_proof. Qed.
+Print Assumptions attest_prune_total.
+
+(* ... and on ANY stored state with a snapshot (evidence without proof, fee-less messages with a
+   transaction proof, short balance lists written before the guards existed) *)
+Theorem attest_prune_any_state : forall (h : Z) (s : astate),
+  as_snap s <> None -> exists s', aend_block fixed h s = AOk s'.
+Proof. intros h s. exact (aend_block_any_state_proof fixed h s fixed_guarded). Qed.
+Print Assumptions attest_prune_any_state.
+
+(* evidence that cannot be processed is rejected when submitted: no reachable queue holds any *)
+Theorem stored_evidence_usable : forall ops s, arun fixed ops ainit = AOk s -> all_usable s.
+Proof. exact stored_evidence_usable_proof. Qed.
+Print Assumptions stored_evidence_usable.
+
+(* a message whose attestation fails or cannot happen is skipped, every other message of the loop
+   comes out exactly as without it *)
+Theorem unattestable_message_skipped : forall v snap proc a m b ka pa fa kb pb fb failed proc',
+  v_continue v = true ->
+  attest_loop v snap proc a = AOk (ka, pa, fa) ->
+  attest_one v snap pa m = AOk (FStay, proc', failed) ->
+  attest_loop v snap pa b = AOk (kb, pb, fb) ->
+  attest_loop v snap proc (a ++ m :: b)%list = AOk ((ka ++ m :: kb)%list, pb, true) /\
+  attest_loop v snap proc (a ++ b)%list = AOk ((ka ++ kb)%list, pb, true).
+Proof. exact unattestable_message_skipped_proof. Qed.
+Print Assumptions unattestable_message_skipped.
+
+Theorem prune_removes_old : forall v h s s',
+  aend_block v h s = AOk s' -> h mod prune_period = 0 -> forall m, In m (as_queue s') -> is_old h m = false.
+Proof. exact prune_removes_old_proof. Qed.
+Print Assumptions prune_removes_old.
+
+(* the tree that is checked has every guard the theorems above are stated for *)
+Theorem attest_variant_is_fixed : current = fixed.
+Proof. exact attest_variant_known_proof. Qed.
+Print Assumptions attest_variant_is_fixed.
+
+Theorem skyway_recovered_panic_costs_one_block : forall s,
+  Forall2 Z.le (k_cursor s) (k_cursor (sky_end_block s)) /\
+  (k_swept (sky_end_block s) = k_swept s + 1 \/
+   (k_swept (sky_end_block s) = k_swept s /\ csum (k_cursor s) < csum (k_cursor (sky_end_block s)))).
+Proof. exact skyway_recovered_panic_costs_one_block_proof. Qed.
+Print Assumptions skyway_recovered_panic_costs_one_block.
+
+Theorem worthy_powers_total : forall cur new tcur tnew,
+  tcur <> 0 -> tnew <> 0 -> exists b, worthy_powers cur new tcur tnew = WOk b.
+Proof. exact worthy_powers_total_proof. Qed.
+Print Assumptions worthy_powers_total.
+
+Theorem second_round_facts_hold : second_round_facts = true.
+Proof. exact second_round_facts_hold_proof. Qed.
+Print Assumptions second_round_facts_hold.
 
 (* --- source translation tie (GenFn) --- *)
 (* The Go function bodies named below are re-translated from the source on every check
